@@ -100,6 +100,13 @@ TCloseMain == IsFs("close") /\ Ev.m = "w" /\ Ev.f = "main" /\ CloseMain
 \* ---- model calls and the copy main -> TARGET
 TCall == IsEv("call") /\ Call(Ev.s)
 
+\* parallel mode: a worker may still log a finished sample between the kill record and the death of the
+\* process (SIGKILL is not instantaneous); the sample was obtained after the last checkpoint and is lost
+TCallDying ==
+    /\ IsEv("call") /\ pc = "dead" /\ env.par
+    /\ computed' = computed \cup {Ev.s} /\ mayRedo' = mayRedo \cup ({Ev.s} \ lastDone)
+    /\ UNCHANGED <<env, main, old, pc, have, pending, from, wiped, rec, completed, lastDone, redo, crashes, partial>>
+
 TCollect ==
     /\ Silent /\ l <= Len(TraceLog) /\ Ev.e = "fs" /\ Ev.op = "open" /\ Ev.m = "r"
     /\ \E C \in SUBSET pending : Collect(C)
@@ -142,7 +149,7 @@ TEnd ==
 
 TNext == \/ TReset \/ TStart \/ TRecMain \/ TRecOld \/ TRead \/ TCloseRecovery
          \/ TInitOpen \/ TCkOpenM \/ TWriteMain \/ TCloseMain
-         \/ TCall \/ TCollect \/ TCkOpenR \/ TCkOpenW \/ TCopyWrite \/ TCopyClose \/ TCkCloseR
+         \/ TCall \/ TCallDying \/ TCollect \/ TCkOpenR \/ TCkOpenW \/ TCopyWrite \/ TCopyClose \/ TCkCloseR
          \/ TWriteKilled \/ TKillAfterWrite \/ TKill \/ TEnd
 
 TSpec == TInit /\ [][TNext]_tvars
